@@ -5,6 +5,7 @@ import (
 	"encoding/hex"
 	"encoding/json"
 	"fmt"
+	"os"
 	"regexp"
 	"strings"
 	"sync"
@@ -281,6 +282,12 @@ func runC08(r *core.Run) {
 	r.Rule("world histories (2 real wallets, 1-2 real mints, in-process transport) over every wallet operation path (mint, send with and without swap and fees, receive on the same mint and untrusted with swap-to-trusted, P2PK incl. SIG_ALL and HTLC lock + receive, melt with NUT-08 blank outputs under each Lightning outcome, melt-quote checks, reclaim, remove-spent, mint-to-mint swap, keyset rotation, wallet restart, restore from mnemonic), with mints that return DLEQ proofs and one variant whose responses are rewritten to carry none; every byte of every request body is inspected: every 64-hex window is looked up in the set of blinding factors known from the wallet store proxy, returned proofs and an independent NUT-13 derivation, no JSON key r may occur, a deterministic output secret may only occur as inputs[].secret of swap/melt; beyond r itself: the x coordinate of r*G of every known blinding factor, and every DLEQ e / s and C_ the mints have handed out so far, are looked up in the same windows (any of them tells the mint which signature a proof comes from); non-trivial = distinct (history, request#) bodies inspected that contained at least one 64-hex window")
 	r.Assume("tokens returned to the wallet's caller are exempt (not requests); the unchanged wallet never sends a dleq object on an input (measured: 0 in every run), so an (e, s) pair the mint handed out that comes back in a request is a verdict")
 	nh, nops := pick(r, 6, 48), pick(r, 40, 120)
+	raceChildRun := os.Getenv("VERIF_RACE_CHILD") != ""
+	if raceChildRun {
+		// the -race child: fewer, shorter histories, eight of them at a time in this one process, so that the
+		// wallet package's request construction runs in several goroutines at once under the race detector
+		nh, nops = 16, 30
+	}
 	var endpointsSeen sync.Map
 	var totalRs int64
 	var trMu sync.Mutex
@@ -442,6 +449,15 @@ func runC08(r *core.Run) {
 			r.Count("op:"+k, int64(v))
 		}
 	})
+	if raceChildRun {
+		return
+	}
+	if !quick(r) {
+		// the histories above already run eight at a time in one process, but a request built from memory shared
+		// between wallets (package-level scratch state) leaks another request's dleq only in a narrow window:
+		// the same workload, shorter, three times under the race detector, which reports the sharing itself
+		raceChild(r, "C08")
+	}
 	// observed-nothing floor: every body-carrying endpoint must have been inspected
 	for _, ep := range []string{"/v1/swap", "/v1/melt/bolt11", "/v1/mint/bolt11", "/v1/checkstate", "/v1/restore"} {
 		if _, ok := endpointsSeen.Load(ep); !ok && r.Only == "" {
